@@ -37,6 +37,7 @@ type Interp struct {
 	pc             []*smt.Term
 	pcSet          map[*smt.Term]bool
 	pcVal          map[*smt.Term]*smt.Term
+	pcDom          map[*smt.Term]*domain
 	pcFalse        bool
 	forks          [][]int
 	inputs         []inputVar
@@ -50,6 +51,7 @@ type Interp struct {
 	labels         map[string]Value // intrinsic side tables (e.g. time labels)
 	frozen         map[*Value]bool
 	frozenMap      map[*Map]bool
+	curFn          *ssa.Function
 	lastPanicStack string
 	inErrorf       int
 
@@ -224,14 +226,172 @@ func (in *Interp) addPC(t *smt.Term) {
 
 func (in *Interp) indexFact(t *smt.Term) {
 	in.pcSet[t] = true
-	if t.Op == smt.OpEq {
+	switch t.Op {
+	case smt.OpEq:
 		a, b := t.Args[0], t.Args[1]
 		if b.IsConst() && !a.IsConst() {
 			in.pcVal[a] = b
 		} else if a.IsConst() && !b.IsConst() {
 			in.pcVal[b] = a
 		}
+	case smt.OpNot:
+		e := t.Args[0]
+		switch e.Op {
+		case smt.OpEq:
+			a, b := e.Args[0], e.Args[1]
+			if a.Op == smt.OpBVConst {
+				a, b = b, a
+			}
+			if b.Op == smt.OpBVConst && a.Op != smt.OpBVConst {
+				d := in.dom(a)
+				d.excl[sextW(b.Val, b.Sort.W)] = true
+			}
+		case smt.OpSLe: // not (a <= b)  ==  b < a
+			in.boundFact(e.Args[1], e.Args[0], true)
+		case smt.OpSLt: // not (a < b)  ==  b <= a
+			in.boundFact(e.Args[1], e.Args[0], false)
+		}
+	case smt.OpSLe:
+		in.boundFact(t.Args[0], t.Args[1], false)
+	case smt.OpSLt:
+		in.boundFact(t.Args[0], t.Args[1], true)
 	}
+}
+
+// a small signed-interval domain per term, fed by the comparisons with
+// constants that enter the path condition; it answers the many forced
+// decisions on small-range inputs (node kinds, content ids) without a
+// solver call. Every inference is a sound consequence of the path condition.
+type domain struct {
+	lo, hi int64
+	excl   map[int64]bool
+}
+
+func sextW(v uint64, w int) int64 {
+	if w >= 64 {
+		return int64(v)
+	}
+	sh := uint(64 - w)
+	return int64(v<<sh) >> sh
+}
+
+func (in *Interp) dom(t *smt.Term) *domain {
+	d, ok := in.pcDom[t]
+	if !ok {
+		w := t.Sort.W
+		d = &domain{lo: -(1 << 62) * 2, hi: 1<<63 - 1, excl: map[int64]bool{}}
+		if w < 64 {
+			d.lo = -(int64(1) << uint(w-1))
+			d.hi = int64(1)<<uint(w-1) - 1
+		}
+		in.pcDom[t] = d
+	}
+	return d
+}
+
+// boundFact records a <s b (strict) or a <=s b where one side is constant.
+func (in *Interp) boundFact(a, b *smt.Term, strict bool) {
+	switch {
+	case a.Op == smt.OpBVConst && b.Op != smt.OpBVConst:
+		c := sextW(a.Val, a.Sort.W)
+		if strict {
+			if c == 1<<63-1 {
+				return
+			}
+			c++
+		}
+		d := in.dom(b)
+		if c > d.lo {
+			d.lo = c
+		}
+	case b.Op == smt.OpBVConst && a.Op != smt.OpBVConst:
+		c := sextW(b.Val, b.Sort.W)
+		if strict {
+			if c == -(1<<62)*2 {
+				return
+			}
+			c--
+		}
+		d := in.dom(a)
+		if c < d.hi {
+			d.hi = c
+		}
+	}
+}
+
+// domDecide evaluates x == c, x <s c, x <=s c, c <s x, c <=s x from the domain.
+func (in *Interp) domEq(x *smt.Term, c int64) (bool, bool) {
+	d, ok := in.pcDom[x]
+	if !ok {
+		return false, false
+	}
+	if c < d.lo || c > d.hi || d.excl[c] {
+		return false, true
+	}
+	if d.hi-d.lo >= 0 && d.hi-d.lo <= 16 {
+		// single remaining value?
+		remaining := 0
+		var last int64
+		for v := d.lo; v <= d.hi; v++ {
+			if !d.excl[v] {
+				remaining++
+				last = v
+			}
+		}
+		if remaining == 1 && last == c {
+			return true, true
+		}
+	}
+	return false, false
+}
+
+func (in *Interp) domCmp(a, b *smt.Term, strict bool) (bool, bool) {
+	// a <s b or a <=s b
+	if a.Op == smt.OpBVConst && b.Op != smt.OpBVConst {
+		d, ok := in.pcDom[b]
+		if !ok {
+			return false, false
+		}
+		c := sextW(a.Val, a.Sort.W)
+		if strict {
+			if c < d.lo {
+				return true, true
+			}
+			if c >= d.hi {
+				return false, true
+			}
+		} else {
+			if c <= d.lo {
+				return true, true
+			}
+			if c > d.hi {
+				return false, true
+			}
+		}
+	}
+	if b.Op == smt.OpBVConst && a.Op != smt.OpBVConst {
+		d, ok := in.pcDom[a]
+		if !ok {
+			return false, false
+		}
+		c := sextW(b.Val, b.Sort.W)
+		if strict {
+			if d.hi < c {
+				return true, true
+			}
+			if d.lo >= c {
+				return false, true
+			}
+		} else {
+			if d.hi <= c {
+				return true, true
+			}
+			if d.lo > c {
+				return false, true
+			}
+		}
+	}
+	return false, false
 }
 
 // syntactic decides cond from facts already in the path condition.
@@ -248,7 +408,8 @@ func (in *Interp) syntactic(cond *smt.Term) (bool, bool) {
 		neg = true
 		t = t.Args[0]
 	}
-	if t.Op == smt.OpEq {
+	switch t.Op {
+	case smt.OpEq:
 		a, b := t.Args[0], t.Args[1]
 		if a.IsConst() {
 			a, b = b, a
@@ -257,13 +418,35 @@ func (in *Interp) syntactic(cond *smt.Term) (bool, bool) {
 			if v, ok := in.pcVal[a]; ok {
 				return (v == b) != neg, true
 			}
+			if b.Op == smt.OpBVConst && a.Op != smt.OpBVConst {
+				if v, ok := in.domEq(a, sextW(b.Val, b.Sort.W)); ok {
+					return v != neg, true
+				}
+			}
+		}
+	case smt.OpSLe:
+		if v, ok := in.domCmp(t.Args[0], t.Args[1], false); ok {
+			return v != neg, true
+		}
+	case smt.OpSLt:
+		if v, ok := in.domCmp(t.Args[0], t.Args[1], true); ok {
+			return v != neg, true
 		}
 	}
 	return false, false
 }
 
 // feasible reports whether pc ∧ cond is satisfiable (unknown counts as yes).
+var ProfileQueries = map[string]int{}
+var profMu sync.Mutex
+var Profile bool
+
 func (in *Interp) feasible(cond *smt.Term) bool {
+	if Profile && in.curFn != nil {
+		profMu.Lock()
+		ProfileQueries[in.curFn.String()+" :: "+smt.Print(cond)[:min(60, len(smt.Print(cond)))]]++
+		profMu.Unlock()
+	}
 	as := append(append([]*smt.Term{}, in.pc...), cond)
 	in.stats.mu.Lock()
 	in.stats.FeasQ++
@@ -322,6 +505,12 @@ func (in *Interp) assume(v Value) {
 			if !v {
 				panic(abortPath{"assumption infeasible"})
 			}
+			return
+		}
+		if len(in.taken) < len(in.prefix) {
+			// still replaying the prefix: the parent run executed this very
+			// assumption under the same path condition and found it feasible
+			in.addPC(c.T)
 			return
 		}
 		if !in.feasibleCached(c.T) {
@@ -512,6 +701,7 @@ func (in *Interp) RunPath(entry *ssa.Function, prefix []int) (res PathResult) {
 	in.pc = nil
 	in.pcSet = map[*smt.Term]bool{}
 	in.pcVal = map[*smt.Term]*smt.Term{}
+	in.pcDom = map[*smt.Term]*domain{}
 	in.forks = nil
 	in.inputs = nil
 	in.nameCount = map[string]int{}
@@ -765,3 +955,7 @@ func Explore(p *Program, entry *ssa.Function, cfg ExploreConfig) (*ExploreResult
 	})
 	return &ExploreResult{Stats: stats, Exhausted: cut == "", CutReason: cut}, nil
 }
+
+// assumeFresh adds a constraint that only restricts variables created just
+// now (always satisfiable together with any path condition): no query.
+func (in *Interp) assumeFresh(t *smt.Term) { in.addPC(t) }
